@@ -330,6 +330,35 @@ pub fn c10(tier: &str, seed: u64) -> Vec<Case> {
         if class_of(&out) != "ok" { c = c.fail("nsap-variable-length", format!("an NSAP record of {} octets (RFC 1706 5: variable length, at most 20) is rejected", n)); }
         v.push(c);
     }
+    // every type through writers that take a few bytes per call (a socket, a pipe, a compressor) and into storage that
+    // ends inside the RDATA: the layout is written in full - the bytes of `build_bytes_vec` - or an error is reported;
+    // never a shortened field under the full RDLENGTH reported as success
+    for kind in 0..40usize {
+        for rep in 0..(if thorough { 12 } else { 2 }) {
+            let rr = g.rr_of(kind);
+            let mut p = Packet::new_reply(rep as u16);
+            if let RData::OPT(o) = &rr.rdata { *p.opt_mut() = Some(o.clone()); } else { p.answers.push(rr); }
+            let want = match p.build_bytes_vec() { Ok(b) => b, Err(_) => continue };
+            if want.len() > 3000 { continue; }
+            let wantc = p.build_bytes_vec_compressed().unwrap_or_default();
+            let mut c = Case::oracle_only().tag(&format!("type:{}", crate::gen::KIND_NAMES[kind])).tag("slow-writer");
+            for chunk in [1usize, 3, 11] {
+                let mut sink = crate::props::wr::SlowSink { inner: std::io::Cursor::new(vec![]), chunk, interrupt: chunk == 3, tick: 0 };
+                let ok = std::panic::catch_unwind(std::panic::AssertUnwindSafe(|| p.write_to(&mut sink).is_ok())).unwrap_or(false);
+                if !ok || sink.inner.get_ref()[..] != want[..] { c = c.fail("layout-written-slow-writer", format!("{}: write_to through a writer accepting {} byte(s) per call does not emit the bytes of build_bytes_vec", crate::gen::KIND_NAMES[kind], chunk)); break; }
+                let mut sink = crate::props::wr::SlowSink { inner: std::io::Cursor::new(vec![]), chunk, interrupt: false, tick: 0 };
+                let ok = std::panic::catch_unwind(std::panic::AssertUnwindSafe(|| p.write_compressed_to(&mut sink).is_ok())).unwrap_or(false);
+                if !ok || sink.inner.get_ref()[..] != wantc[..] { c = c.fail("layout-written-slow-writer", format!("{}: write_compressed_to through a writer accepting {} byte(s) per call does not emit the bytes of build_bytes_vec_compressed", crate::gen::KIND_NAMES[kind], chunk)); break; }
+            }
+            for short in 1..=4usize {
+                if want.len() <= 12 + short { continue; }
+                let mut store = vec![0u8; want.len() - short];
+                let res = { let mut cur = std::io::Cursor::new(&mut store[..]); std::panic::catch_unwind(std::panic::AssertUnwindSafe(|| p.write_to(&mut cur).is_ok())).unwrap_or(true) };
+                if res { c = c.fail("layout-written-slow-writer", format!("{}: write_to into storage {} byte(s) too small reports success", crate::gen::KIND_NAMES[kind], short)); break; }
+            }
+            v.push(c);
+        }
+    }
     svcb_builder(thorough, seed, &mut v);
     v
 }
